@@ -2,6 +2,7 @@ import BeffVerif.Props.C03
 import BeffVerif.Props.C03NoThrow
 import BeffVerif.Props.C03Report
 import BeffVerif.Props.C03Parse
+import BeffVerif.Props.C03Declared
 open BeffVerif.C03
 #print axioms safeParse_success_iff_validate
 #print axioms safeParse_failure_iff_not_validate
@@ -16,3 +17,8 @@ open BeffVerif.C03
 #print axioms parseAV_no_throw
 #print axioms safeParse_no_throw
 #print axioms parse_only_documented_failure
+#print axioms BeffVerif.C03S.parse_strict
+#print axioms BeffVerif.C03S.parse_revalidates_frag
+#print axioms BeffVerif.C03S.parse_only_declared_frag
+#print axioms BeffVerif.C03S.obj_fold
+#print axioms BeffVerif.C03S.prim_strict_eq
